@@ -7,9 +7,9 @@
    arbitrary functions outside the guarded domain changes nothing), which is the exact-arithmetic content of `finite`.
    NOT verified: overflow to +-inf in binary64 (no magnitude bound is proved); asserted as a test on every correspondence case.
    Only statements; every proof is `exact <lemma>` (proofs live in the files imported below). *)
-From Coq Require Import Arith List Bool Reals Floats.
+From Coq Require Import Arith List Bool Reals Floats ZArith Floats.
 Import ListNotations.
-From MT Require Import Arith J SweepModel RInst Spec GraphModel InitModel CtrlModel MainModel RunProofs WellFormed InvProofs FactorizeProofs.
+From MT Require Import Arith J SweepModel RInst Spec GraphModel InitModel CtrlModel MainModel RunProofs WellFormed InvProofs FactorizeProofs InitModel CtrlModel CtrlProofs FloatInst Mt19937 FloatSign ClosureProofs FloatNonneg.
 Local Open Scope R_scope.
 
 Theorem C03_structure : forall (num : Type) (A : Arith num) (label : Type) (leqb : label -> label -> bool),
@@ -130,4 +130,119 @@ Theorem C03_adopted_when_first_likelihood_is_a_number : forall (num : Type) (A :
        ls <> [] -> ltb A (lowest A) (hd (lowest A) ls) = true -> best_index num A ls <> None.
 Proof. exact first_above_lowest_adopted. Qed.
 Print Assumptions C03_adopted_when_first_likelihood_is_a_number.
+
+(* AT THE LEVEL OF THE EXECUTED ARITHMETIC (Coq primitive binary64 = the doubles of the implementation): from the seeded random start of a realization, *)
+(* after ANY number of sweeps on ANY network, no out-membership, in-membership or affinity entry of the general model is negative (nor -0): each is +0, positive, *)
+(* +infinity or NaN.  (`never negative` is closed under IEEE +, *, / -- FloatSign.v, Flocq -- and the sweeps only combine entries with +, *, / and select *)
+(* between them -- ClosureProofs.v, for any arithmetic.)  Finiteness is NOT proved (overflow). *)
+Theorem C03_never_negative_in_binary64_general : forall (lnf : float -> float) (directed : bool) (N K L : nat) (ul vl : list nat) 
+         (seed : Z) (m n : nat) (G : graph) (b : bufs float (list (matrix float)) unit) 
+         (ic' : unit) (ut vt : matrix float) (wt : list (matrix float)) (s3 : list float),
+       strm b = mt_draws seed m ->
+       start_of float (ArithF lnf) (list (matrix float)) unit (step_random_gen float (ArithF lnf) K L)
+         directed N K ul vl b = (ic', (ut, vt, wt), s3) ->
+       let
+       '(u', v', w') :=
+        iter_sweep float (list (matrix float)) (sweep_gen float (ArithF lnf) N K L directed G) n
+          (ut, vt, wt) in
+        (forall i k : nat,
+         notneg (mget float (ArithF lnf) u' i k) /\ (mget float (ArithF lnf) u' i k <? 0)%float = false) /\
+        ((directed = false -> forall i k : nat, notneg (mget float (ArithF lnf) (tv b) i k)) ->
+         forall i k : nat,
+         notneg (mget float (ArithF lnf) v' i k) /\ (mget float (ArithF lnf) v' i k <? 0)%float = false) /\
+        (forall k q a : nat,
+         notneg (tget float (ArithF lnf) w' k q a) /\
+         (tget float (ArithF lnf) w' k q a <? 0)%float = false).
+Proof. exact float_trajectory_never_negative_general. Qed.
+Print Assumptions C03_never_negative_in_binary64_general.
+
+(* the same for the assortative model *)
+Theorem C03_never_negative_in_binary64_assortative : forall (lnf : float -> float) (directed : bool) (N K L : nat) (ul vl : list nat) 
+         (seed : Z) (m n : nat) (G : graph) (b : bufs float (list (list float)) unit) 
+         (ic' : unit) (ut vt : matrix float) (wt : list (list float)) (s3 : list float),
+       strm b = mt_draws seed m ->
+       start_of float (ArithF lnf) (list (list float)) unit (step_random_ass float (ArithF lnf) K L)
+         directed N K ul vl b = (ic', (ut, vt, wt), s3) ->
+       let
+       '(u', v', w') :=
+        iter_sweep float (list (list float)) (sweep_ass float (ArithF lnf) N K L directed G) n
+          (ut, vt, wt) in
+        (forall i k : nat,
+         notneg (mget float (ArithF lnf) u' i k) /\ (mget float (ArithF lnf) u' i k <? 0)%float = false) /\
+        ((directed = false -> forall i k : nat, notneg (mget float (ArithF lnf) (tv b) i k)) ->
+         forall i k : nat,
+         notneg (mget float (ArithF lnf) v' i k) /\ (mget float (ArithF lnf) v' i k <? 0)%float = false) /\
+        (forall k a : nat,
+         notneg (dget float (ArithF lnf) w' k a) /\ (dget float (ArithF lnf) w' k a <? 0)%float = false).
+Proof. exact float_trajectory_never_negative_assortative. Qed.
+Print Assumptions C03_never_negative_in_binary64_assortative.
+
+(* and from a user-supplied initial affinity whose entries are not negative (start = value + 0.1 x draw) *)
+Theorem C03_never_negative_in_binary64_general_from_file : forall (lnf : float -> float) (directed : bool) (N K L : nat) (ul vl : list nat) 
+         (seed : Z) (m n : nat) (G : graph)
+         (b : bufs float (list (matrix float)) (option (list (matrix float))))
+         (ic' : option (list (matrix float))) (ut vt : matrix float) (wt : list (matrix float))
+         (s3 : list float),
+       strm b = mt_draws seed m ->
+       (forall k q a : nat,
+        notneg (tget float (ArithF lnf) match ic b with
+                                        | Some c => c
+                                        | None => cw b
+                                        end k q a)) ->
+       start_of float (ArithF lnf) (list (matrix float)) (option (list (matrix float)))
+         (step_from_gen float (ArithF lnf) K L) directed N K ul vl b = (ic', (ut, vt, wt), s3) ->
+       let
+       '(u', v', w') :=
+        iter_sweep float (list (matrix float)) (sweep_gen float (ArithF lnf) N K L directed G) n
+          (ut, vt, wt) in
+        (forall i k : nat,
+         notneg (mget float (ArithF lnf) u' i k) /\ (mget float (ArithF lnf) u' i k <? 0)%float = false) /\
+        ((directed = false -> forall i k : nat, notneg (mget float (ArithF lnf) (tv b) i k)) ->
+         forall i k : nat,
+         notneg (mget float (ArithF lnf) v' i k) /\ (mget float (ArithF lnf) v' i k <? 0)%float = false) /\
+        (forall k q a : nat,
+         notneg (tget float (ArithF lnf) w' k q a) /\
+         (tget float (ArithF lnf) w' k q a <? 0)%float = false).
+Proof. exact float_trajectory_never_negative_general_from_file. Qed.
+Print Assumptions C03_never_negative_in_binary64_general_from_file.
+
+(* assortative, user-supplied *)
+Theorem C03_never_negative_in_binary64_assortative_from_file : forall (lnf : float -> float) (directed : bool) (N K L : nat) (ul vl : list nat) 
+         (seed : Z) (m n : nat) (G : graph)
+         (b : bufs float (list (list float)) (option (list (list float))))
+         (ic' : option (list (list float))) (ut vt : matrix float) (wt : list (list float))
+         (s3 : list float),
+       strm b = mt_draws seed m ->
+       (forall k a : nat,
+        notneg (dget float (ArithF lnf) match ic b with
+                                        | Some c => c
+                                        | None => cw b
+                                        end k a)) ->
+       start_of float (ArithF lnf) (list (list float)) (option (list (list float)))
+         (step_from_ass float (ArithF lnf) K L) directed N K ul vl b = (ic', (ut, vt, wt), s3) ->
+       let
+       '(u', v', w') :=
+        iter_sweep float (list (list float)) (sweep_ass float (ArithF lnf) N K L directed G) n
+          (ut, vt, wt) in
+        (forall i k : nat,
+         notneg (mget float (ArithF lnf) u' i k) /\ (mget float (ArithF lnf) u' i k <? 0)%float = false) /\
+        ((directed = false -> forall i k : nat, notneg (mget float (ArithF lnf) (tv b) i k)) ->
+         forall i k : nat,
+         notneg (mget float (ArithF lnf) v' i k) /\ (mget float (ArithF lnf) v' i k <? 0)%float = false) /\
+        (forall k a : nat,
+         notneg (dget float (ArithF lnf) w' k a) /\ (dget float (ArithF lnf) w' k a <? 0)%float = false).
+Proof. exact float_trajectory_never_negative_assortative_from_file. Qed.
+Print Assumptions C03_never_negative_in_binary64_assortative_from_file.
+
+(* the generic fact behind it: for ANY arithmetic and ANY predicate that holds of zero and is closed under +, *, /, one sweep preserves `every entry satisfies it` *)
+Theorem C03_sweeps_preserve_any_closed_predicate : forall (num : Type) (A : Arith num) (P : num -> Prop),
+       P (zero A) ->
+       (forall x y : num, P x -> P y -> P (add A x y)) ->
+       (forall x y : num, P x -> P y -> P (mul A x y)) ->
+       (forall x y : num, P x -> P y -> P (div A x y)) ->
+       forall (N K L : nat) (directed : bool) (G : graph) (u v : matrix num) (w : list (matrix num)),
+       Pm num A P u ->
+       Pm num A P v -> Pt num A P w -> Pst_gen num A P (sweep_gen num A N K L directed G (u, v, w)).
+Proof. exact sweep_gen_P. Qed.
+Print Assumptions C03_sweeps_preserve_any_closed_predicate.
 
